@@ -144,6 +144,40 @@ def multiset_pairs():
     return out
 
 
+def plain_of_items(items):
+    out = []
+    for d, v in items:
+        if d == "PUSH":
+            out.append(gen.push(int(str(v), 16)))
+        elif v is None or "JUMP" in d:
+            out.append(d)
+        else:
+            out.append("%s %s" % (d, v))
+    return " ".join(out)
+
+
+def result_mutant_pairs(tier, rng):
+    """blocks on which rewrite rules fire, against operand-swapped copies of the *optimizer's own result* for them: the original side of
+    the comparison then holds records that a rule rewrote (their flags included), the other side the rewritten shape written directly"""
+    rules = gen.rule_corpus()
+    blocks = (rules if tier != "quick" else rng.sample(rules, 160)) + ["DUP1 SWAP3 SWAP1 SHL SWAP2 SHL AND", "DUP1 SWAP3 SWAP1 SHL SWAP2 SHL OR",
+                                                                     "PUSH1 0x1 DUP2 SHL DUP3 MUL", "PUSH1 0x1 DUP2 SHL DUP3 DIV", "DUP2 DUP2 SUB ISZERO", "DUP2 DUP2 XOR ISZERO"]
+    pairs = []
+    for text, opts, e, st in e2e.run_optimize(blocks, [["-greedy"]]):
+        if e is None or "cand_items" not in e or e["cand_items"] == e["in_items"]:
+            continue
+        try:
+            cand = plain_of_items(e["cand_items"])
+        except (ValueError, TypeError):
+            continue
+        items = split_items(cand)
+        pairs.append((text, cand))
+        for i, x in enumerate(items):
+            if x in NONCOMM:
+                pairs.append((text, " ".join(items[:i] + ["SWAP1"] + items[i:])))
+    return pairs
+
+
 def run(tier):
     sd = common.seed()
     rng = random.Random(sd * 31337 + 5)
@@ -169,6 +203,8 @@ def run(tier):
     for a, b in permutation_pairs():
         for o in (osets[:1] + osets[2:3]):
             tasks.append({"kind": "compare", "a": a, "b": b, "opts": o, "mut": "operand-permutation"})
+    for a, b in result_mutant_pairs(tier, rng):
+        tasks.append({"kind": "compare", "a": a, "b": b, "opts": ["-greedy"], "mut": "result-operand-swap"})
     groups = {}
     for t in tasks:
         groups.setdefault(tuple(t["opts"]), []).append(t)
